@@ -11,6 +11,7 @@ import (
 	"github.com/scigolib/hdf5/internal/structures"
 	"github.com/scigolib/hdf5/internal/zzverif/ev"
 	"github.com/scigolib/hdf5/internal/zzverif/memio"
+	"github.com/scigolib/hdf5/internal/zzverif/pools"
 )
 
 // C11 — every metadata encoder is inverted by its decoder, and encoding is deterministic.
@@ -138,6 +139,7 @@ func roundDT(v *core.DatatypeMessage, fail func(string, any), kind string, props
 		fail("datatype:"+kind+":encode-error", map[string]any{"value": fmt.Sprintf("%+v", *v), "err": err.Error()})
 		return nil
 	}
+	pools.Dirty(false) // the second encoding starts from differently used pool buffers
 	b2, _ := core.EncodeDatatypeMessage(v)
 	if !bytes.Equal(b1, b2) {
 		fail("datatype:"+kind+":nondeterministic", fmt.Sprintf("%x vs %x", b1, b2))
@@ -181,6 +183,7 @@ var c11Pairs = []c11Pair{
 			fail("superblock:encode-error", err.Error())
 			return ""
 		}
+		pools.Dirty(false) // the second encoding starts from differently used pool buffers
 		_ = v.WriteTo(m2, eof)
 		if !bytes.Equal(m1.Data, m2.Data) {
 			fail("superblock:nondeterministic", "")
@@ -262,6 +265,7 @@ var c11Pairs = []c11Pair{
 			fail(fmt.Sprintf("objectheader:v%d:encode-error", ver), err.Error())
 			return ""
 		}
+		pools.Dirty(false) // the second encoding starts from differently used pool buffers
 		_, _ = w.WriteTo(m2, addr)
 		if !bytes.Equal(m1.Data, m2.Data) {
 			fail(fmt.Sprintf("objectheader:v%d:nondeterministic", ver), "")
@@ -456,8 +460,10 @@ var c11Pairs = []c11Pair{
 		}
 		var enc2 []byte
 		if v1 {
+			pools.Dirty(false) // the second encoding starts from differently used pool buffers
 			enc2, _ = core.EncodeCompoundDatatypeV1(size, fields)
 		} else {
+			pools.Dirty(false) // the second encoding starts from differently used pool buffers
 			enc2, _ = core.EncodeCompoundDatatypeV3(size, fields)
 		}
 		if !bytes.Equal(enc, enc2) {
@@ -544,6 +550,7 @@ var c11Pairs = []c11Pair{
 				fail("datatype:array:encode-error", err.Error())
 				return ""
 			}
+			pools.Dirty(false) // the second encoding starts from differently used pool buffers
 			enc2, _ := core.EncodeArrayDatatypeMessage(bb, dims, total)
 			if !bytes.Equal(enc, enc2) {
 				fail("datatype:array:nondeterministic", "")
@@ -582,6 +589,7 @@ var c11Pairs = []c11Pair{
 			fail("datatype:enum:encode-error", err.Error())
 			return ""
 		}
+		pools.Dirty(false) // the second encoding starts from differently used pool buffers
 		enc2, _ := core.EncodeEnumDatatypeMessage(bb, names, values, base.Size)
 		if !bytes.Equal(enc, enc2) {
 			fail("datatype:enum:nondeterministic", "")
@@ -644,6 +652,7 @@ var c11Pairs = []c11Pair{
 			fail(fmt.Sprintf("registry:%d:encode-error", t), err.Error())
 			return ""
 		}
+		pools.Dirty(false) // the second encoding starts from differently used pool buffers
 		msg2, _, _, _ := hdf5.VerifRegistryEncode(t, opts...)
 		if !bytes.Equal(msg, msg2) {
 			fail(fmt.Sprintf("registry:%d:nondeterministic", t), "")
@@ -691,6 +700,7 @@ var c11Pairs = []c11Pair{
 			fail("dataspace:encode-error", err.Error())
 			return ""
 		}
+		pools.Dirty(false) // the second encoding starts from differently used pool buffers
 		b2, _ := core.EncodeDataspaceMessage(dims, maxd)
 		if !bytes.Equal(b1, b2) {
 			fail("dataspace:nondeterministic", "")
@@ -722,6 +732,7 @@ var c11Pairs = []c11Pair{
 				fail("layout:contiguous:encode-error", err.Error())
 				return ""
 			}
+			pools.Dirty(false) // the second encoding starts from differently used pool buffers
 			b2, _ := core.EncodeLayoutMessage(core.LayoutContiguous, size, addr, sb, nil)
 			if !bytes.Equal(b1, b2) {
 				fail("layout:contiguous:nondeterministic", "")
@@ -745,6 +756,7 @@ var c11Pairs = []c11Pair{
 			fail("layout:chunked:encode-error", err.Error())
 			return ""
 		}
+		pools.Dirty(false) // the second encoding starts from differently used pool buffers
 		b2, _ := core.EncodeLayoutMessage(core.LayoutChunked, 0, addr, sb, cd)
 		if !bytes.Equal(b1, b2) {
 			fail("layout:chunked:nondeterministic", "")
@@ -783,6 +795,7 @@ var c11Pairs = []c11Pair{
 			fail("attribute:encode-error", err.Error())
 			return ""
 		}
+		pools.Dirty(false) // the second encoding starts from differently used pool buffers
 		b2, _ := core.EncodeAttributeMessage(name, dt, ds, data)
 		if !bytes.Equal(b1, b2) {
 			fail("attribute:nondeterministic", "")
@@ -831,6 +844,7 @@ var c11Pairs = []c11Pair{
 			fail("attribute-info:encode-error", err.Error())
 			return ""
 		}
+		pools.Dirty(false) // the second encoding starts from differently used pool buffers
 		b2, _ := core.EncodeAttributeInfoMessage(v, sb)
 		if !bytes.Equal(b1, b2) {
 			fail("attribute-info:nondeterministic", "")
@@ -901,6 +915,7 @@ var c11Pairs = []c11Pair{
 			fail("link:"+kname+":encode-error", map[string]any{"flags": v.Flags, "name_len": len(name), "err": err.Error()})
 			return ""
 		}
+		pools.Dirty(false) // the second encoding starts from differently used pool buffers
 		b2, _ := core.EncodeLinkMessage(v, sb)
 		if !bytes.Equal(b1, b2) {
 			fail("link:"+kname+":nondeterministic", "")
@@ -963,6 +978,7 @@ var c11Pairs = []c11Pair{
 			fail("link-info:encode-error", err.Error())
 			return ""
 		}
+		pools.Dirty(false) // the second encoding starts from differently used pool buffers
 		b2, _ := core.EncodeLinkInfoMessage(v, sb)
 		if !bytes.Equal(b1, b2) {
 			fail("link-info:nondeterministic", "")
@@ -981,6 +997,7 @@ var c11Pairs = []c11Pair{
 		// the reader decodes this message inline (group.go): B-tree address at 0, heap address at 8
 		bt, hp := interestingAddr(r), interestingAddr(r)
 		b1 := core.EncodeSymbolTableMessage(bt, hp, 8, 8)
+		pools.Dirty(false) // the second encoding starts from differently used pool buffers
 		b2 := core.EncodeSymbolTableMessage(bt, hp, 8, 8)
 		if !bytes.Equal(b1, b2) {
 			fail("symbol-table-message:nondeterministic", "")
